@@ -42,6 +42,10 @@ try:
     PINNED_SIGNATURES = _json.loads((_pathlib.Path(__file__).with_name('pinned_signatures.json')).read_text())
 except (OSError, ValueError):
     PINNED_SIGNATURES = {}
+try:
+    PINNED_LOCALS = _json.loads((_pathlib.Path(__file__).with_name('pinned_locals.json')).read_text())
+except (OSError, ValueError):
+    PINNED_LOCALS = {}
 
 
 def fresh(prefix):
@@ -104,6 +108,38 @@ def t2_sink_return(body):
     return body
 
 
+def t2b_return_temp(body, whole):
+    """T2b: ``x = E`` ; ``return x``  ->  ``return E``  (adjacent statements, x a plain local that occurs nowhere else in the
+    function)."""
+    out = []
+    i = 0
+    while i < len(body):
+        s = body[i]
+        nxt = body[i + 1] if i + 1 < len(body) else None
+        if (isinstance(s, ast.Assign) and len(s.targets) == 1 and isinstance(s.targets[0], ast.Name) and isinstance(nxt, ast.Return)
+                and isinstance(nxt.value, ast.Name) and nxt.value.id == s.targets[0].id
+                and sum(1 for n in ast.walk(whole) if isinstance(n, ast.Name) and n.id == s.targets[0].id) == 2):
+            out.append(ast.copy_location(ast.Return(value=s.value), nxt))
+            i += 2
+            continue
+        out.append(s)
+        i += 1
+    return out
+
+
+def t16_positive_test(body):
+    """T16: ``if not c: A else: B``  ->  ``if c: B else: A``  (both arms present, the else arm not an elif chain)."""
+    out = []
+    for s in body:
+        if (isinstance(s, ast.If) and s.orelse and isinstance(s.test, ast.UnaryOp) and isinstance(s.test.op, ast.Not)
+                and not (len(s.orelse) == 1 and isinstance(s.orelse[0], ast.If))):
+            new = ast.If(test=s.test.operand, body=s.orelse, orelse=s.body)
+            out.append(ast.copy_location(new, s))
+            continue
+        out.append(s)
+    return out
+
+
 def t6_hoist_else(body):
     """``if c: <...; return/raise/continue/break> else: REST``  ->  ``if c: <...>`` ; REST   (the else is only reached when c is false
     and the if-body never falls through)."""
@@ -114,6 +150,14 @@ def t6_hoist_else(body):
             s.orelse = []
             out.append(s)
             out += t6_hoist_else(rest)
+        elif (isinstance(s, ast.If) and s.orelse and _never_falls_through(s.orelse) and not _never_falls_through(s.body)
+              and not (len(s.orelse) == 1 and isinstance(s.orelse[0], ast.If))):
+            # ``if c: REST else: <...; raise>``  ->  ``if not c: <...; raise>`` ; REST
+            guard = ast.If(test=ast.UnaryOp(op=ast.Not(), operand=s.test), body=s.orelse, orelse=[])
+            ast.copy_location(guard, s)
+            ast.copy_location(guard.test, s)
+            out.append(guard)
+            out += t6_hoist_else(s.body)
         else:
             out.append(s)
     return out
@@ -679,6 +723,60 @@ def t9_unpack_forward(body, whole):
     return out
 
 
+def ordered_locals(node):
+    """Names bound in the function's own scope (assignment, loop, with, except, import targets), in order of first binding."""
+    a = node.args
+    params = {x.arg for x in a.posonlyargs + a.args + a.kwonlyargs} | {x.arg for x in (a.vararg, a.kwarg) if x}
+    seen = []
+
+    def visit(n):
+        if isinstance(n, (ast.FunctionDef, ast.AsyncFunctionDef, ast.ClassDef, ast.Lambda, ast.ListComp, ast.SetComp, ast.DictComp, ast.GeneratorExp)):
+            return
+        if isinstance(n, ast.Name) and isinstance(n.ctx, ast.Store) and n.id not in params and n.id not in seen:
+            seen.append(n.id)
+        for c in ast.iter_child_nodes(n):
+            visit(c)
+    for st in node.body:
+        visit(st)
+    return seen
+
+
+def t15_restore_local_names(func, node):
+    """T15: a local variable that was merely renamed gets back the name it has on today's tree (frozen table
+    pinned_locals.json: per function the locals in order of first binding).  The current and the pinned name lists are
+    aligned; only 1:1 substitutions are undone, and only when the old name is free in the function."""
+    pinned = PINNED_LOCALS.get(func.key)
+    if not pinned:
+        return
+    cur = ordered_locals(node)
+    if cur == pinned:
+        return
+    import difflib
+    used = {n.id for n in ast.walk(node) if isinstance(n, ast.Name)} | {a.arg for x in ast.walk(node) if isinstance(x, ast.arguments)
+                                                                       for a in x.posonlyargs + x.args + x.kwonlyargs}
+    mapping = {}
+    for tag, i1, i2, j1, j2 in difflib.SequenceMatcher(None, pinned, cur, autojunk=False).get_opcodes():
+        if tag == 'replace' and i2 - i1 == j2 - j1:
+            for old, new in zip(pinned[i1:i2], cur[j1:j2]):
+                if old not in used and new not in pinned and old not in mapping.values():
+                    mapping[new] = old
+    if not mapping:
+        return
+
+    def rename(n, shadow):
+        if isinstance(n, (ast.FunctionDef, ast.AsyncFunctionDef, ast.Lambda)) and n is not node:
+            a = n.args
+            own = {x.arg for x in a.posonlyargs + a.args + a.kwonlyargs} | {x.arg for x in (a.vararg, a.kwarg) if x}
+            body = n.body if isinstance(n.body, list) else [n.body]
+            own |= {x.id for st in body for x in ast.walk(st) if isinstance(x, ast.Name) and isinstance(x.ctx, ast.Store)}
+            shadow = shadow | own
+        if isinstance(n, ast.Name) and n.id in mapping and n.id not in shadow:
+            n.id = mapping[n.id]
+        for c in ast.iter_child_nodes(n):
+            rename(c, shadow)
+    rename(node, frozenset())
+
+
 def _resolve_callee(model, func, call):
     """Package function a call certainly refers to: ``f(...)``, ``module.f(...)``, ``Class.m(...)``, ``self.m(...)``,
     ``cls.m(...)``.  Returns (Func, number of leading parameters bound by the receiver) or (None, 0)."""
@@ -925,11 +1023,14 @@ def normalize_function(model, func):
         block = t3_list_sort(block)
         text = ast.unparse(ast.Module(body=block, type_ignores=[]))
         block = t4_alias_call(block, text)
+        block = t16_positive_test(block)
         block = t1_ifexp_return(block)
         block = t2_sink_return(block)
+        block = t2b_return_temp(block, node)
         block = t6_hoist_else(block)
         return block
 
+    t15_restore_local_names(func, node)
     t12_new_parameters(model, func, node)
     node = _T14(model, func).visit(node)
     node = _T14(model, func).visit(node)      # list(<the generator expression just produced>)
@@ -954,3 +1055,11 @@ if __name__ == '__main__':
             table[f.key] = [x.arg for x in a.posonlyargs + a.args + a.kwonlyargs] + [x.arg for x in (a.vararg, a.kwarg) if x]
         pathlib.Path(__file__).with_name('pinned_signatures.json').write_text(json.dumps(table, indent=0, sort_keys=True))
         print(len(table), 'signatures pinned')
+        locs = {}
+        for f in m.all_funcs():
+            node = f.orig if getattr(f, 'orig', None) is not None else f.node
+            names = ordered_locals(node)
+            if names:
+                locs[f.key] = names
+        pathlib.Path(__file__).with_name('pinned_locals.json').write_text(json.dumps(locs, indent=0, sort_keys=True))
+        print(len(locs), 'local-name lists pinned')
